@@ -73,15 +73,18 @@ RulesC ==
 R(a, b) == [lo |-> a, hi |-> b]
 YearLists  == {<<R(2016, 2016)>>, <<R(2016, 2018)>>, <<R(2018, 2016)>>, <<R(2016, 2017), R(2018, 2019)>>,
                <<R(2016, 2018), R(2018, 2019)>>, <<R(2018, 2019), R(2016, 2017)>>, <<R(2016, 2017), R(2017, 2017)>>,
-               <<R(2016, 2016), R(2016, 2016)>>, <<R(2019, 2018), R(2016, 2017)>>, <<>>}
+               <<R(2016, 2016), R(2016, 2016)>>, <<R(2019, 2018), R(2016, 2017)>>, <<>>,
+               <<R(2016, 2018), R(2017, 2019)>>, <<R(2016, 2019), R(2017, 2018)>>, <<R(2016, 2017), R(2018, 2019), R(2019, 2020)>>}
 MonthLists == {<<R(201611, 201702)>>, <<R(201602, 201602)>>, <<R(201702, 201611)>>, <<R(201512, 201601), R(201603, 201605)>>,
                <<R(201611, 201702), R(201702, 201703)>>, <<R(201703, 201704), R(201611, 201612)>>,
                <<R(201613, 201702)>>, <<R(201600, 201602)>>, <<R(201612, 201613)>>, <<R(201601, 201601), R(201601, 201601)>>,
-               <<R(201612, 201801)>>}
+               <<R(201612, 201801)>>, <<R(201801, 201806), R(201804, 201809)>>, <<R(201801, 201806), R(201806, 201812)>>,
+               <<R(201801, 201812), R(201803, 201804)>>, <<R(201711, 201802), R(201803, 201804), R(201804, 201805)>>}
 DayLists   == {<<R(20161230, 20170102)>>, <<R(20160228, 20160301)>>, <<R(20170102, 20161230)>>,
                <<R(20170228, 20170301), R(20170302, 20170302)>>, <<R(20170228, 20170301), R(20170301, 20170302)>>,
                <<R(20170302, 20170303), R(20170228, 20170301)>>, <<R(20170229, 20170301)>>, <<R(20170228, 20170230)>>,
-               <<R(20171301, 20171302)>>, <<R(20170101, 20170101), R(20170101, 20170101)>>}
+               <<R(20171301, 20171302)>>, <<R(20170101, 20170101), R(20170101, 20170101)>>,
+               <<R(20170228, 20170302), R(20170301, 20170303)>>, <<R(20161230, 20170103), R(20170101, 20170102)>>}
 DateSliceVariants(n) == {Take(n), Take(n) \o <<"slice-0">>} \cup (IF n >= 1 THEN {Take(n - 1), [Take(n) EXCEPT ![n] = "slice-x"]} ELSE {})
 DateRule(t, rs, ss) == [Base(t) EXCEPT !.ranges = rs, !.slices = ss]
 DateRulesOf(t, lists) == UNION {{DateRule(t, rs, ss) : ss \in DateSliceVariants(Len(rs))} : rs \in lists}
@@ -103,6 +106,10 @@ ConfigsE ==
     \cup {Ns("slice-0", <<Named(Good, a), Linked("child", p)>>)
              : a \in {"tbl_verif", "Tbl_Verif", "TBL_VERIF"}, p \in {"tbl_verif", "TBL_VERIF", "Tbl_Verif", "other"}}
     \cup {Ns("slice-0", <<Linked("child", "tbl_verif"), Named(Good, "tbl_verif")>>),
+          Ns("slice-0", <<Named(Good, "other"), Linked("child", "tbl_verif"), Named(Good, "tbl_verif")>>),
+          Ns("slice-0", <<Linked("child", "tbl_verif"), Linked("child2", "tbl_verif"), Named(LocRule("range", <<2>>, Take(1)), "tbl_verif")>>),
+          Ns("slice-0", <<Linked("child", "tbl_verif"), Named(LocRule("mycat_mod", <<2, 2>>, Take(2)), "tbl_verif"), Linked("child2", "tbl_verif")>>),
+          Ns("slice-0", <<Linked("tbl_verif", "other"), Named(Good, "other"), Named(Good, "tbl_verif")>>),
           Ns("slice-0", <<Named(Good, "tbl_verif"), Linked("child", "tbl_verif"), Linked("grandchild", "child")>>),
           Ns("slice-0", <<Named(Good, "tbl_verif"), Linked("child", "tbl_verif"), Linked("CHILD", "tbl_verif")>>),
           Ns("slice-0", <<Linked("child", "child")>>)}
